@@ -206,7 +206,8 @@ type simReader struct {
 	ret     []byte // every byte Read has returned, in order
 	retLog  []int  // sizes
 	retStep []int
-	zero    bool // next read returns (0, nil)
+	zero    bool   // next read returns (0, nil)
+	buf     []byte // the caller's buffer while a Read is parked (a Reader may use all of it as scratch space during the call)
 }
 
 func (r *simReader) Read(p []byte) (int, error) {
@@ -233,6 +234,19 @@ func (r *simReader) Read(p []byte) (int, error) {
 			r.ret = append(r.ret, p[:n]...)
 			r.retLog = append(r.retLog, n)
 			r.retStep = append(r.retStep, s.step)
+			// io.Reader allows a Read to use all of p as scratch space while
+			// the call lasts: this call does (beyond n), and so does every
+			// other Read that is parked right now
+			scribble(p[n:])
+			for _, o := range s.atts {
+				if o.r != nil && o.r != r && o.r.parked != nil && o.r.buf != nil {
+					scribble(o.r.buf)
+					s.probes["parked_read_buffer_scribbled"]++
+					if len(p) > 0 && len(o.r.buf) > 0 && &p[0] == &o.r.buf[0] {
+						s.probes["two_reads_in_flight_on_one_buffer"]++
+					}
+				}
+			}
 			var err error
 			if len(r.pending) == 0 && r.hasErr {
 				err = r.pendErr
@@ -255,8 +269,19 @@ func (r *simReader) Read(p []byte) (int, error) {
 		}
 		ch := make(chan struct{})
 		r.parked = ch
+		r.buf = p
 		s.mu.Unlock()
 		<-ch
+		s.mu.Lock()
+		r.buf = nil
+		s.mu.Unlock()
+	}
+}
+
+func scribble(p []byte) {
+	const mark = "~SCRATCH~"
+	for i := range p {
+		p[i] = mark[i%len(mark)]
 	}
 }
 
